@@ -425,6 +425,25 @@ def run_query(ctx, q, witness=True):
                     return rec
         except Inconclusive as ex_:
             rec['witness_note'] = str(ex_)[:300]
+    if r.status == 'pass' and witness and q.L is not None and getattr(q, 'witness_vectors', None):
+        # E1 cheap vacuity guard: the natively built harness (real functions) reaches its end on a concrete vector with every
+        # assumption satisfied
+        try:
+            exe = native_build(ctx, q.L, q.harness, q.defines, sanitize=False, tag='w')
+            for i, vec in enumerate(q.witness_vectors):
+                vp = exe + '.w%d' % i
+                with open(vp, 'w') as f:
+                    for k, v in vec.items():
+                        if isinstance(v, (list, tuple)):
+                            for j, x in enumerate(v): f.write('%s %d i %x\n' % (k, j, x & 0xffffffffffffffff))
+                        else:
+                            f.write('%s -1 i %x\n' % (k, v & 0xffffffffffffffff))
+                rc, o, e = run_native(exe, vp, timeout=30)
+                if rc == 0 and 'REACHED-END' in o:
+                    rec['witness'] = 'reached'; rec['witness_kind'] = 'native run on %s' % vec
+                    return rec
+        except Inconclusive as ex_:
+            rec['witness_note'] = str(ex_)[:300]
     if r.status == 'pass' and witness:
         # vacuity guard: the twin's final assert(0) must FAIL
         w = cbmc_run(ctx, files_for(q), q.defines + ['WITNESS'], q.unwind, q.unwindset, q.timeout, q.backend, extra=q.extra, incs=incs_for(q), no_ub=getattr(q, 'no_ub_checks', False), no_ptr_overflow=getattr(q, 'no_ptr_overflow', False))
